@@ -6,6 +6,7 @@ package ast
 
 import (
 	"fmt"
+	"sort"
 	"strings"
 	"sync"
 	"unicode"
@@ -1182,6 +1183,158 @@ func (m *MergeStatement) SQL() string {
 	}
 
 	return sb.String()
+}
+
+// ALTER statements built by the parser's alter.go (ast.AlterStatement with an operation node)
+
+func (a *AlterStatement) SQL() string {
+	if a == nil {
+		return ""
+	}
+	sb := getBuilder()
+	defer putBuilder(sb)
+	sb.WriteString("ALTER ")
+	switch a.Type {
+	case AlterTypeTable:
+		sb.WriteString("TABLE")
+	case AlterTypeRole:
+		sb.WriteString("ROLE")
+	case AlterTypePolicy:
+		sb.WriteString("POLICY")
+	case AlterTypeConnector:
+		sb.WriteString("CONNECTOR")
+	}
+	if a.Name != "" {
+		sb.WriteString(" ")
+		sb.WriteString(nameSQL(a.Name))
+	}
+	if op, ok := a.Operation.(interface{ SQL() string }); ok && a.Operation != nil {
+		if s := op.SQL(); s != "" {
+			sb.WriteString(" ")
+			sb.WriteString(s)
+		}
+	}
+	return sb.String()
+}
+
+func identSQL(i *Ident) string {
+	if i == nil {
+		return ""
+	}
+	return safeIdentifier(i.Name)
+}
+
+func (o *AlterTableOperation) SQL() string {
+	if o == nil {
+		return ""
+	}
+	cascade := ""
+	if o.CascadeDrops {
+		cascade = " CASCADE"
+	}
+	switch o.Type {
+	case AddColumn:
+		if o.ColumnDef == nil {
+			return "ADD COLUMN"
+		}
+		return "ADD COLUMN " + columnDefSQL(o.ColumnDef)
+	case AddConstraint:
+		if o.Constraint == nil {
+			return "ADD CONSTRAINT"
+		}
+		return "ADD CONSTRAINT " + strings.TrimPrefix(tableConstraintSQL(o.Constraint), "CONSTRAINT ")
+	case DropColumn:
+		return "DROP COLUMN " + identSQL(o.ColumnName) + cascade
+	case DropConstraint:
+		return "DROP CONSTRAINT " + identSQL(o.ConstraintName) + cascade
+	case RenameTable:
+		return "RENAME TO " + nameSQL(o.NewTableName.Name)
+	case RenameColumn:
+		return "RENAME COLUMN " + identSQL(o.ColumnName) + " TO " + identSQL(o.NewColumnName)
+	case AlterColumn:
+		s := "ALTER COLUMN " + identSQL(o.ColumnName)
+		if o.ColumnDef != nil {
+			s += " " + columnDefSQL(o.ColumnDef)
+		}
+		return s
+	default:
+		return ""
+	}
+}
+
+// roleOptionSQL renders one option of ALTER ROLE ... WITH; an expression value is serialised, not formatted with %v.
+func roleOptionSQL(opt *RoleOption) string {
+	if e, ok := opt.Value.(Expression); ok && e != nil {
+		switch opt.Type {
+		case Password:
+			return "PASSWORD " + exprSQL(e)
+		case ValidUntil:
+			return "VALID UNTIL " + exprSQL(e)
+		case ConnectionLimit:
+			return "CONNECTION LIMIT " + exprSQL(e)
+		}
+	}
+	return opt.String()
+}
+
+func (o *AlterRoleOperation) SQL() string {
+	if o == nil {
+		return ""
+	}
+	switch o.Type {
+	case RenameRole:
+		return "RENAME TO " + safeIdentifier(o.NewName)
+	case AddMember:
+		return "ADD MEMBER " + safeIdentifier(o.MemberName)
+	case DropMember:
+		return "DROP MEMBER " + safeIdentifier(o.MemberName)
+	case SetConfig:
+		s := "SET " + safeIdentifier(o.ConfigName)
+		if o.ConfigValue != nil {
+			s += " TO " + exprSQL(o.ConfigValue)
+		}
+		return s
+	case ResetConfig:
+		if o.ConfigName == "ALL" {
+			return "RESET ALL"
+		}
+		return "RESET " + safeIdentifier(o.ConfigName)
+	case WithOptions:
+		opts := make([]string, len(o.Options))
+		for i := range o.Options {
+			opts[i] = roleOptionSQL(&o.Options[i])
+		}
+		return "WITH " + strings.Join(opts, ", ")
+	default:
+		return ""
+	}
+}
+
+func (o *AlterConnectorOperation) SQL() string {
+	if o == nil {
+		return ""
+	}
+	switch {
+	case o.Properties != nil:
+		keys := make([]string, 0, len(o.Properties))
+		for k := range o.Properties {
+			keys = append(keys, k)
+		}
+		sort.Strings(keys)
+		props := make([]string, len(keys))
+		for i, k := range keys {
+			props[i] = safeIdentifier(k) + " = '" + escapeStringLiteral(o.Properties[k]) + "'"
+		}
+		return "SET DCPROPERTIES (" + strings.Join(props, ", ") + ")"
+	case o.Owner != nil:
+		kind := "ROLE"
+		if o.Owner.IsUser {
+			kind = "USER"
+		}
+		return "SET OWNER " + kind + " " + safeIdentifier(o.Owner.Name)
+	default:
+		return "SET URL '" + escapeStringLiteral(o.URL) + "'"
+	}
 }
 
 // MySQL utility statements
